@@ -18,6 +18,7 @@ pub struct World {
 /// Writes the configuration and points SNELDB_CONFIG at it. Must run before anything touches
 /// `CONFIG`. `bypass` selects `auth.bypass_auth`; `expiry` the session token lifetime.
 pub fn write_config(out: &Path, tag: &str, bypass: bool, expiry: u64) -> PathBuf {
+    std::fs::create_dir_all(out).unwrap();
     let root = std::fs::canonicalize(out).unwrap().join(format!("c13-{tag}-{}", std::process::id()));
     let _ = std::fs::remove_dir_all(&root);
     std::fs::create_dir_all(&root).unwrap();
